@@ -51,3 +51,43 @@ int zv_fast_candidates(const void* samples, const size_t* sizes, unsigned nb, si
     }
     return njobs;
 }
+
+/* ---- round 2 ---- */
+static int zv_fctx(FASTCOVER_ctx_t* ctx, const void* samples, const size_t* sizes, unsigned nb, unsigned d, unsigned f, unsigned accel) {
+    memset(ctx, 0, sizeof *ctx);
+    return ZSTD_isError(FASTCOVER_ctx_init(ctx, samples, sizes, nb, d, 1.0, f, FASTCOVER_defaultAccelParameters[accel]));
+}
+
+zv_fres zv_fast_build(const void* samples, const size_t* sizes, unsigned nb, unsigned d, unsigned f, unsigned accel,
+                      unsigned k, size_t cap, unsigned char* dict) {
+    FASTCOVER_ctx_t ctx; zv_fres r; ZDICT_cover_params_t p; U16* segmentFreqs; size_t i;
+    memset(&r, 0, sizeof r);
+    if (zv_fctx(&ctx, samples, sizes, nb, d, f, accel)) { r.err = 1; return r; }
+    r.nbDmers = ctx.nbDmers;
+    r.fh = zv_fnv(ctx.freqs, ((size_t)4) << f);
+    memset(&p, 0, sizeof p); p.k = k; p.d = d; p.splitPoint = 1.0;
+    segmentFreqs = (U16*)calloc(((size_t)1) << f, sizeof(U16));
+    r.tail = FASTCOVER_buildDictionary(&ctx, ctx.freqs, dict, cap, p, segmentFreqs);
+    for (i = 0; i < (((size_t)1) << f); i++) if (segmentFreqs[i]) r.dirty = 1;
+    free(segmentFreqs);
+    FASTCOVER_ctx_destroy(&ctx);
+    return r;
+}
+
+zv_fres zv_fast_select(const void* samples, const size_t* sizes, unsigned nb, unsigned d, unsigned f, unsigned accel,
+                       unsigned k, unsigned begin, unsigned end) {
+    FASTCOVER_ctx_t ctx; zv_fres r; ZDICT_cover_params_t p; U16* segmentFreqs; size_t i; COVER_segment_t sg;
+    memset(&r, 0, sizeof r);
+    if (zv_fctx(&ctx, samples, sizes, nb, d, f, accel)) { r.err = 1; return r; }
+    r.nbDmers = ctx.nbDmers;
+    if (end > ctx.nbDmers || begin > end) { r.err = 2; FASTCOVER_ctx_destroy(&ctx); return r; }   /* outside the function's contract */
+    memset(&p, 0, sizeof p); p.k = k; p.d = d; p.splitPoint = 1.0;
+    segmentFreqs = (U16*)calloc(((size_t)1) << f, sizeof(U16));
+    sg = FASTCOVER_selectSegment(&ctx, ctx.freqs, begin, end, p, segmentFreqs);
+    r.seg.begin = sg.begin; r.seg.end = sg.end; r.seg.score = sg.score;
+    r.fh = zv_fnv(ctx.freqs, ((size_t)4) << f);
+    for (i = 0; i < (((size_t)1) << f); i++) if (segmentFreqs[i]) r.dirty = 1;
+    free(segmentFreqs);
+    FASTCOVER_ctx_destroy(&ctx);
+    return r;
+}
